@@ -1360,3 +1360,42 @@ m('N6-entry-plus-accessor-puts-the-entry-last', 'C04', 'N6', 'PyTreeEntry.__add_
   """        if isinstance(other, PyTreeAccessor):
             return PyTreeAccessor((*other, self))
         return NotImplemented""")
+m('K6py-structseq-answer-on-a-miss', 'C12', 'K6py', 'registry_get/structseq-answer-on-a-hit', 'optree/registry.py',
+  """    if is_structseq_class(cls):
+        return _NODETYPE_REGISTRY.get(structseq)""",
+  """    if not is_structseq_class(cls):
+        return _NODETYPE_REGISTRY.get(structseq)""")
+m('D4-dict-overlay-for-every-other-class', 'C13', 'D4', 'registry.get/overlay-for-its-own-class/dict', 'optree/registry.py',
+  """        if cls is dict:
+            return _DICT_INSERTION_ORDERED_REGISTRY_ENTRY""",
+  """        if cls is not dict:
+            return _DICT_INSERTION_ORDERED_REGISTRY_ENTRY""")
+m('G4-lookup-rejects-the-namedtuple-stub', 'C12', 'G4', 'pytree_node_registry_get/polarity/cls is namedtuple', 'optree/registry.py',
+  """        and cls is not namedtuple  # noqa: PYI024""",
+  """        and cls is namedtuple  # noqa: PYI024""")
+m('G4-unregister-accepts-only-the-global-sentinel', 'C12', 'G4', 'unregister_pytree_node/polarity', 'optree/registry.py',
+  """        raise TypeError(f'Expected a class, got {cls!r}.')
+    if namespace is not __GLOBAL_NAMESPACE and not isinstance(namespace, str):
+        raise TypeError(f'The namespace must be a string, got {namespace!r}.')
+    if namespace == '':
+        raise ValueError('The namespace cannot be an empty string.')
+
+    registration_key: type | tuple[str, type]""",
+  """        raise TypeError(f'Expected a class, got {cls!r}.')
+    if namespace is __GLOBAL_NAMESPACE and not isinstance(namespace, str):
+        raise TypeError(f'The namespace must be a string, got {namespace!r}.')
+    if namespace == '':
+        raise ValueError('The namespace cannot be an empty string.')
+
+    registration_key: type | tuple[str, type]""")
+m('G4-mode-block-translates-every-namespace-but-the-sentinel', 'C13', 'G4', 'dict_insertion_ordered/sentinel-translated', 'optree/registry.py',
+  """    if namespace is __GLOBAL_NAMESPACE:
+        namespace = ''
+
+    with __REGISTRY_LOCK:
+        prev = """,
+  """    if namespace is not __GLOBAL_NAMESPACE:
+        namespace = ''
+
+    with __REGISTRY_LOCK:
+        prev = """)
